@@ -29,6 +29,12 @@ func (e *Engine) mergeStates(rs []*State) []*State {
 	return out
 }
 
+func (e *Engine) noteFail(why string) {
+	if e.ForkSites != nil {
+		e.ForkSites["MERGEFAIL "+why]++
+	}
+}
+
 func (e *Engine) suffixCond(st *State, base int) *Term {
 	if len(st.pc) < base {
 		e.fail("merge: path condition shorter than base")
@@ -67,11 +73,13 @@ func (e *Engine) merge2(a, b *State) (*State, bool) {
 	}
 	for _, c := range a.pc[base:] {
 		if e.hardConds[c.ID] {
+			e.noteFail("hard condition")
 			return nil, false
 		}
 	}
 	for _, c := range b.pc[base:] {
 		if e.hardConds[c.ID] {
+			e.noteFail("hard condition")
 			return nil, false
 		}
 	}
@@ -79,16 +87,19 @@ func (e *Engine) merge2(a, b *State) (*State, bool) {
 	condB := e.suffixCond(b, base)
 	// lazily imported globals / native objects must be the same on both sides
 	if len(a.natives) != len(b.natives) || len(a.globals) != len(b.globals) {
+		e.noteFail("different sets of imported globals/natives")
 		return nil, false
 	}
 	for k, ia := range a.natives {
 		if ib, ok := b.natives[k]; !ok || ia != ib {
+			e.noteFail("natives differ")
 			return nil, false
 		}
 	}
 	// globals maps must agree on common keys
 	for g, ia := range a.globals {
 		if ib, ok := b.globals[g]; !ok || ia != ib {
+			e.noteFail("globals differ")
 			return nil, false
 		}
 	}
@@ -99,6 +110,7 @@ func (e *Engine) merge2(a, b *State) (*State, bool) {
 		v  Value
 	}
 	var upds []regUpd
+	var dead []regUpd
 	for i := range a.frames {
 		fa, fb := a.frames[i], b.frames[i]
 		if fa == fb {
@@ -112,6 +124,14 @@ func (e *Engine) merge2(a, b *State) (*State, bool) {
 			if sameValue(va, vb) {
 				continue
 			}
+			if instr, isI := k.(ssa.Instruction); isI {
+				// SSA dominance: a register whose definition does not dominate the
+				// current block cannot be used any more (stale value of an earlier iteration)
+				if db := instr.Block(); db != fa.block && !db.Dominates(fa.block) {
+					dead = append(dead, regUpd{i, k, nil})
+					continue
+				}
+			}
 			m, ok := e.mergeValue(condB, vb, va)
 			if !ok {
 				if e.ForkSites != nil {
@@ -124,10 +144,12 @@ func (e *Engine) merge2(a, b *State) (*State, bool) {
 		for j := range fa.defers {
 			da, db := fa.defers[j], fb.defers[j]
 			if da.fn.Fn != db.fn.Fn || len(da.args) != len(db.args) {
+				e.noteFail("defers differ")
 				return nil, false
 			}
 			for q := range da.args {
 				if !sameValue(da.args[q], db.args[q]) {
+					e.noteFail("defer args")
 					return nil, false
 				}
 			}
@@ -171,6 +193,9 @@ func (e *Engine) merge2(a, b *State) (*State, bool) {
 	// commit into a
 	for _, u := range upds {
 		a.wframeAt(u.fi).regs[u.k] = u.v
+	}
+	for _, u := range dead {
+		delete(a.wframeAt(u.fi).regs, u.k)
 	}
 	// registers only defined in b (dead or later-defined): copy for safety
 	for i := range a.frames {
